@@ -5,6 +5,8 @@
  *   -1/0/1); strcmp / memcmp results (String, Type, plain structs) are printed by sign. */
 #include "Cello.h"
 #include "hcommon.h"
+#include <setjmp.h>
+#include <sys/time.h>
 
 static const char* P0;      /* parse cursor */
 static int bad;             /* construction failed */
@@ -114,10 +116,34 @@ static var parse_value(void) {
   }
 }
 
+/* P(v,v,@0,...): a heap Tuple built by push; @j pushes the very pointer of slot j again */
+static var parse_ptuple(void) {
+  var items[MAXITEMS]; size_t n = 0;
+  P0 += 2;
+  if (*P0 == ')') { P0++; return new_raw(Tuple); }
+  while (1) {
+    if (n + 1 > MAXITEMS) { bad = 1; return NULL; }
+    if (*P0 == '@') {
+      char* e; long j = strtol(P0 + 1, &e, 10); P0 = e;
+      if (j < 0 || (size_t)j >= n) { bad = 1; return NULL; }
+      items[n++] = items[j];
+    } else {
+      items[n++] = parse_value();
+      if (bad) return NULL;
+    }
+    if (*P0 == ',') { P0++; continue; }
+    if (*P0 == ')') { P0++; break; }
+    bad = 1; return NULL;
+  }
+  var s = new_raw(Tuple);
+  for (size_t i = 0; i < n; i++) push(s, items[i]);
+  return s;
+}
+
 static var build(char* tok) {
   var v = NULL;
   P0 = tok; bad = 0;
-  try { v = parse_value(); } catch (e) { bad = 1; }
+  try { v = (tok[0] == 'P' && tok[1] == '(') ? parse_ptuple() : parse_value(); } catch (e) { bad = 1; }
   if (*P0 != 0) bad = 1;
   return bad ? NULL : v;
 }
@@ -127,13 +153,35 @@ static int by_sign(var a) {
   return t is String or t is Type or not type_implements(t, Cmp);
 }
 
+/* per-comparison guard: a cmp/eq/... call that burns more than PAIR_MS of CPU time is reported as the
+ * field "TIMEOUT" (non-termination of the comparison loop) and the case goes on with the next pair.
+ * ITIMER_VIRTUAL / SIGVTALRM, so the whole-case watchdog of hcommon.h (alarm) stays armed. */
+#define PAIR_MS 150
+static sigjmp_buf pair_jmp;
+static void pair_alarm(int sig) { (void)sig; siglongjmp(pair_jmp, 1); }
+static void pair_timer(int ms) {
+  struct itimerval it; memset(&it, 0, sizeof it);
+  it.it_value.tv_sec = ms / 1000; it.it_value.tv_usec = (ms % 1000) * 1000;
+  setitimer(ITIMER_VIRTUAL, &it, NULL);
+}
+static void pair_body(var a, var b);
 static void pair(var a, var b) {
+  signal(SIGVTALRM, pair_alarm);
+  if (sigsetjmp(pair_jmp, 1)) { P("TIMEOUT"); return; }
+  pair_timer(PAIR_MS);
+  pair_body(a, b);
+  pair_timer(0);
+}
+
+static void pair_body(var a, var b) {
+  /* the field is printed only when complete */
+  char buf[64]; int n = 0;
   volatile int r = 0; volatile int raised = 0;
   try { r = cmp(a, b); } catch (e) { raised = 1; }
   if (raised) { P("raise"); return; }
   int rr = r;
   if (by_sign(a)) rr = r < 0 ? -1 : r > 0 ? 1 : 0;
-  P("%d:", rr);
+  n += snprintf(buf + n, sizeof buf - n, "%d:", rr);
   const char* names = "enlgLG";
   for (int i = 0; i < 6; i++) {
     volatile int v = 0; volatile int ex = 0;
@@ -144,8 +192,9 @@ static void pair(var a, var b) {
         case 'L': v = le(a, b); break;   case 'G': v = ge(a, b); break;
       }
     } catch (e) { ex = 1; }
-    if (ex) P("x"); else P("%d", v ? 1 : 0);
+    n += snprintf(buf + n, sizeof buf - n, "%s", ex ? "x" : v ? "1" : "0");
   }
+  P("%s", buf);
 }
 
 static void one_case(char* line) {
